@@ -127,8 +127,8 @@ func condDynamicBranch(expr hclsyntax.Expression, ctxs ...*hcl.EvalContext) bool
 				defer func() { _ = recover() }()
 				tv, _ := ce.TrueResult.Value(ctx)
 				fv, _ := ce.FalseResult.Value(ctx)
-				td := tv.Type() == cty.DynamicPseudoType && !tv.IsKnown()
-				fd := fv.Type() == cty.DynamicPseudoType && !fv.IsKnown()
+				td := tv.Type().HasDynamicTypes() && !tv.IsWhollyKnown()
+				fd := fv.Type().HasDynamicTypes() && !fv.IsWhollyKnown()
 				if td != fd {
 					found = true
 				}
